@@ -505,7 +505,7 @@ func runC02(w *World, r *Report) {
 			r.Check(!bad, "C02.dependencies-from-control-only", fmt.Sprintf("resolveCompletedTasks: dependency registration #%d", n), mu.Pos(), "keys come from controls / the branches' selection", "the list whose elements are registered as control successors includes the data successors (writeTo): in a Workflow a node that is an end node of the finished node's branch AND takes its output through a data-only dependency, not selected by the branch, has its skip mark overwritten by a spurious 'ready' — if its other control predecessor skips it too it is no longer all-skipped and executes although nobody routed to it")
 		})
 		if n < 2 {
-			undecidedf("C02.dependencies-from-control-only: only %d dependency registrations found in resolveCompletedTasks", n)
+			r.Deferred = append(r.Deferred, fmt.Sprintf("C02.dependencies-from-control-only: only %d dependency registrations found in resolveCompletedTasks", n))
 		}
 	}
 
@@ -530,7 +530,7 @@ func runC02(w *World, r *Report) {
 			ruleNoMutateParams(w, r, "C02.value-handlers-leave-their-input-alone", fn, nil)
 		}
 		if n < 3 {
-			undecidedf("C02.value-handlers-leave-their-input-alone: only %d value-form handler literals found in package compose", n)
+			r.Deferred = append(r.Deferred, fmt.Sprintf("C02.value-handlers-leave-their-input-alone: only %d value-form handler literals found in package compose", n))
 		}
 	}
 
